@@ -25,6 +25,17 @@ theorem response_history_independent (app : App) (hist : List HReq) (r : HReq) :
   rw [wsgi_slots_irrelevant app (hist.foldl (serve₁ app) AppState.init).slots AppState.init.slots]
   rw [withProbe_slots_irrelevant (hist.foldl (serve₁ app) AppState.init).slots AppState.init.slots]
 
+/-- … and from any starting state: in particular for an application configured with its own
+`errors_map` (`AppState.initWith`), long-lived error objects with any text included -/
+theorem response_history_independent_from (app : App) (st0 : AppState) (hist : List HReq) (r : HReq) :
+    (serve app (hist.foldl (serve₁ app) st0) r).2 = (serve app st0 r).2 := by
+  have hcore := foldl_core app hist st0
+  unfold serve
+  simp only
+  rw [resolve_core _ _ r hcore]
+  rw [wsgi_slots_irrelevant app (hist.foldl (serve₁ app) st0).slots st0.slots]
+  rw [withProbe_slots_irrelevant (hist.foldl (serve₁ app) st0).slots st0.slots]
+
 /-- nothing a request sets or sends is ever written to the shared `HTTPError` objects of
 `errors_map`: after any history their status, headers, cookies and body are the initial ones -/
 theorem shared_errors_unchanged (app : App) (hist : List HReq) :
@@ -95,6 +106,29 @@ theorem retained_bounded (app : App) (hist : List HReq)
   rw [happ]
   simp only [List.length_append, List.length_nil, Nat.add_zero]
   cases (hist.foldl (serve₁ app) AppState.init).slots.req with
+  | none => simp only [List.length_nil]; omega
+  | some q => simp only [List.length_cons, List.length_nil]; omega
+
+/-- the bound for an application with its own `errors_map` of `m.length` entries -/
+theorem retained_bounded_with (app : App) (m : List (String × Nat × Str × Str)) (hist : List HReq)
+    (hc : reachesExcept app = true ∨ ∀ hr ∈ hist, hr.singleton = none) :
+    (retained (hist.foldl (serve₁ app) (AppState.initWith m))).length ≤ 1 + m.length := by
+  have htb := foldl_tb app hist (AppState.initWith m) (by
+    intro e he
+    unfold AppState.initWith at he
+    simp only [List.mem_map] at he
+    obtain ⟨x, _, rfl⟩ := he
+    exact Nat.zero_le 1)
+  have hflat := flatMap_tb_length _ htb.1
+  rw [htb.2] at hflat
+  have hlen : (AppState.initWith m).shared.length = m.length := by
+    unfold AppState.initWith; simp
+  have happ := flatMap_empty _ (foldl_appTb app hist (AppState.initWith m) (fun p hp => by cases hp) hc)
+  unfold retained
+  refine Nat.le_trans (dedup_length_le _) ?_
+  rw [happ]
+  simp only [List.length_append, List.length_nil, Nat.add_zero]
+  cases (hist.foldl (serve₁ app) (AppState.initWith m)).slots.req with
   | none => simp only [List.length_nil]; omega
   | some q => simp only [List.length_cons, List.length_nil]; omega
 
